@@ -225,9 +225,9 @@ Proof.
 Qed.
 
 (* ---------------------------------------------------------------- every call keeps the invariant *)
-Lemma mcall_pmap_ok K m c : pmap_ok m -> pmap_ok (fst (fst (mcall K m c))).
+Lemma mcall_pmap_ok K m c : (forall g, c <> IterNext g) -> pmap_ok m -> pmap_ok (fst (fst (mcall K m c))).
 Proof.
-  intros P. destruct c as [pid|pid|o|o s|o|o|o|o|o|a b|a b|o s|o|o| |]; cbn [mcall].
+  intros NN P. destruct c as [pid|pid|o|o s|o|o|o|o|o|a b|a b|o s|o|o| | |o| |g]; cbn [mcall].
   - destruct (new_obj K pid); cbn [fst]; auto. apply pmap_ok_app; auto.
   - destruct (new_popen K pid); cbn [fst]; auto. apply pmap_ok_app; auto.
   - destruct (nth_error (objs m) o) as [x|] eqn:Ex; cbn [fst]; auto.
@@ -278,33 +278,55 @@ Proof.
       (eapply pmap_ok_upd_same; [apply H1; reflexivity|cbn [with_bootc objs]; eauto|cbn [with_ctime opid]; auto|cbn [with_ctime oreused]; auto]).
   - cbn [do_boot_time fst]. intros p i Hin. apply P; auto.
   - pose proof (proc_iter_stale_free K m P) as [_ P']. destruct (proc_iter K m) as [m1 r]. exact P'.
+  - destruct (nth_error (objs m) o) as [x|] eqn:Ex; cbn [fst]; auto.
+    unfold do_wait. destruct (oexit x); [|destruct (kexists K (opid x))]; cbn [fst];
+      eapply pmap_ok_upd_same; eauto.
+  - cbn [fst]. intros p i Hin. apply P; auto.
+  - exfalso. eapply NN; reflexivity.
 Qed.
 
-Lemma cstep_pmap_ok w c : pmap_ok (ms w) -> pmap_ok (ms (fst (fst (cstep w c)))).
-Proof. intros P. rewrite cstep_eq. cbn [fst ms]. apply mcall_pmap_ok; auto. Qed.
+Lemma cstep_pmap_ok w c : (forall g, c <> IterNext g) -> pmap_ok (ms w) -> pmap_ok (ms (fst (fst (cstep w c)))).
+Proof. intros NN P. rewrite cstep_eq. cbn [fst ms]. apply mcall_pmap_ok; auto. Qed.
 
 Lemma ksteps_ms' ks : forall w, ms (fold_left kstep ks w) = ms w.
 Proof. induction ks as [|k ks IH]; intros w; cbn [fold_left]; auto. rewrite IH. destruct k; reflexivity. Qed.
 
-Lemma next_pmap_ok w e : pmap_ok (ms w) -> pmap_ok (ms (next w e)).
+Lemma next_pmap_ok w e : no_next e = true -> pmap_ok (ms w) -> pmap_ok (ms (next w e)).
 Proof.
-  intros P. unfold next. destruct e as [k|c|o s ks]; cbn [step].
+  intros NN P. unfold next. destruct e as [k|c|o s ks]; cbn [step].
   - destruct k; exact P.
-  - apply cstep_pmap_ok; auto.
-  - pose proof (cstep_pmap_ok w (SetProbe o) P) as P1.
+  - apply cstep_pmap_ok; auto. intros g ->. discriminate.
+  - assert (P1 : pmap_ok (ms (fst (fst (cstep w (SetProbe o)))))) by (apply cstep_pmap_ok; auto; discriminate).
     destruct (cstep w (SetProbe o)) as [[w1 r1] e1]. cbn [fst] in *.
     destruct r1; cbn [fst]; try (rewrite ksteps_ms'; exact P1).
-    apply cstep_pmap_ok. rewrite ksteps_ms'. exact P1.
+    apply cstep_pmap_ok; [discriminate|]. rewrite ksteps_ms'. exact P1.
 Qed.
 
-Lemma run_pmap_ok h : pmap_ok (ms (run h)).
+Lemma run_pmap_ok h : overlap_free h = true -> pmap_ok (ms (run h)).
 Proof.
-  unfold run, run_from. assert (P0 : pmap_ok (ms world0)) by (intros p i []).
-  revert P0. generalize world0. induction h as [|e h IH]; intros w P; cbn [fold_left]; auto.
-  apply IH. apply next_pmap_ok; auto.
+  unfold run, run_from, overlap_free. assert (P0 : pmap_ok (ms world0)) by (intros p i []).
+  revert P0. generalize world0. induction h as [|e h IH]; intros w P F; cbn [fold_left]; auto.
+  cbn [forallb] in F. apply andb_true_iff in F as [F1 F2].
+  apply IH; auto. apply next_pmap_ok; auto.
 Qed.
 
-(* in every world reachable by ANY history process_iter() behaves exactly as it did before b70d950 *)
-Theorem stale_branch_unreachable h :
+(* in every world reached without resuming a generator in between (any events otherwise, well formed or not)
+   process_iter() behaves exactly as it did before b70d950 *)
+Theorem stale_branch_unreachable h : overlap_free h = true ->
   proc_iter (view_of (run h)) (ms (run h)) = proc_iter_nostale (view_of (run h)) (ms (run h)).
-Proof. apply proc_iter_stale_free. apply run_pmap_ok. Qed.
+Proof. intros F. apply proc_iter_stale_free. apply run_pmap_ok; auto. Qed.
+
+(* ... and WITH a suspended generator the branch is taken: the first pass caches object 0 for PID 5, the PID is
+   recycled, a second generator is resumed up to PID 3, is_running() marks object 0 stale, the generator goes on
+   and replaces it (object 3 is new) -- the object the caller holds is left alone *)
+Definition ex_overlap : list ev :=
+  [EK (Spawn 3 100 1 [97]); EK (Spawn 5 100 1 [98]); EC ProcIter; EK (Reap 5); EK (Spawn 5 101 1 [99]);
+   EC IterStart; EC (IterNext 0); EC (IsRunning 1)].
+Lemma stale_branch_reached :
+  wf_hist ex_overlap = true
+  /\ outcome_of (run ex_overlap) (EC (IterNext 0)) = Val (RObj 2)
+  /\ g_inc (next (run ex_overlap) (EC (IterNext 0))) 1 = 1
+  /\ g_inc (next (run ex_overlap) (EC (IterNext 0))) 2 = 2
+  /\ outcome_of (next (run ex_overlap) (EC (IterNext 0))) (EC (IsRunning 1)) = Val (RBool false)
+  /\ outcome_of (next (run ex_overlap) (EC (IterNext 0))) (EC (EqC 1 2)) = Val (RBool false).
+Proof. vm_compute. repeat split. Qed.
